@@ -40,7 +40,7 @@ RULE = ("each run draws a server byte stream from a response grammar (every stat
         "plain connection, or GeminiClient.get/upload over TLS with a timeout of 1-30 s); baseline "
         "and segmented variant are both run. distinct = distinct (stream class, end, entry, result "
         "class); non-trivial = the stream was corrupted, cut short or segmented")
-PROBES = ["many_failed_connection_attempts_first", "server_answers_in_its_last_handshake_flight", "server_stream_damaged_in_transit", "overlapping_calls_on_one_client", "upload_larger_than_socket_buffers", "unknown_charset", "nontext_codec", "over_cap", "stall_timeout", "rst_mid_body",
+PROBES = ["wall_clock_stepped_during_call", "many_failed_connection_attempts_first", "server_answers_in_its_last_handshake_flight", "server_stream_damaged_in_transit", "overlapping_calls_on_one_client", "upload_larger_than_socket_buffers", "unknown_charset", "nontext_codec", "over_cap", "stall_timeout", "rst_mid_body",
           "fin_without_close_notify", "invalid_header", "must_succeed_core", "tls_entry",
           "titan_entry", "non2x_with_trailing_bytes", "connect_phase_fault", "trickling_server"]
 COMPONENTS = {
@@ -251,6 +251,8 @@ def run_case(ch, cfg, variant, damage=None):
     sim = Sim(ch)
     net = sim.net
     info = cfg["info"]
+    if cfg.get("wallstep"):
+        net.step_wall_clock(*cfg["wallstep"])
     sent = info["stream"][:cfg["prefix"]]
     if not variant:
         pieces = [(0.0, sent)] if sent else []
@@ -660,6 +662,12 @@ def run_one(ch):
     if cfg["trigger"] == "immediate" and entry in ("get", "upload") and ch.chance("tls12", 0.6):
         cfg["tls12"] = True
         res.stats["server_answers_in_its_last_handshake_flight"] += 1
+    if entry in ("get", "upload") and ch.chance("wallstep", 0.12):
+        # the wall clock is stepped while the client is connecting or waiting (NTP correction,
+        # VM resume): the call's deadlines are a matter of the monotonic clock
+        cfg["wallstep"] = (ch.pick("wallstep.t", [0.0015, 0.0035, 0.5]),
+                           ch.pick("wallstep.d", [-3600.0, -T, T + 1.0, 3600.0]))
+        res.stats["wall_clock_stepped_during_call"] += 1
     base = run_case(ch, cfg, False)
     cfg["scratch"] = fresh_dir("c13b")
     var = run_case(ch, cfg, True)
